@@ -40,6 +40,25 @@ PLAN = {
             "level_note": "effect table of os / tempfile / shutil / pyben is assumed (DESIGN 5.1); os.replace is atomic; mkstemp returns a "
                           "path that did not exist; bounded harness injects the same faults into the real code",
             "trusted": ["os.replace atomicity", "tempfile.mkstemp freshness", "pyben.dump = encode, then write"]},
+    "C20": {"functions": [], "harness": True,
+            "level_text": "parse_config_file (loop invariant over an arbitrary [config] section, any key order), MetaFile.__init__ and "
+                          "commands.create are verified from source: every documented configuration key lands in kwargs[dest of the "
+                          "create flag --key] (dest table extracted from cli.py each run) and nothing else changes; MetaFile.__init__ "
+                          "puts each keyword into its documented metafile field (exact key sets of info and of the top level); create "
+                          "hands the creators vars(args) with the configuration applied and dispatches on the post-config version",
+            "level_note": "argparse and configparser are assumed (exercised natively: 5 routes per option set must give identical "
+                          "metafiles); path recovery from list-valued flags is bounded only",
+            "modulo_bounded": ["cli.execute / argparse", "MetaFile.__init__ path recovery branch"],
+            "trusted": ["argparse", "configparser"]},
+    "C11": {"functions": [], "harness": True,
+            "level_text": "commands.magnet is verified to return exactly 'magnet:?' + xt + '&dn=' + Q(name) + tr + ws with btih / btmh = hex "
+                          "SHA-1 / SHA-256 of the encoding of the loaded info dictionary, selected by (v1 content, v2 content, requested "
+                          "version) as the statement says, tr = flattened announce-list else announce, ws = url-list, every value through "
+                          "quote_plus; get_magnet passes the requested version on",
+            "level_note": "hash / quote_plus uninterpreted; benc(bdecode(file)['info']) == info span of the file is the assumed pyben round trip "
+                          "(checked natively against the exact span incl. arbitrary key order); that a standard parser recovers dn/tr/ws from "
+                          "the string is assumed (quote_plus alphabet) and checked natively with urllib.parse",
+            "trusted": ["pyben round trip", "urllib.parse.quote_plus"]},
 }
 
 
